@@ -27,8 +27,9 @@ Definition sections (fp : list caction) : nat := sections_from 0 fp.
     pinned tree (each documented in docs/C02.md "atomic steps"): adding a bar to a MultiProgress
     (`internalize`: membership test under the bar lock (fix bee77c9), slot allocation under the multi
     lock, then `set_draw_target` under the bar lock) - three steps in which the new bar is not yet drawn; insert_before/after additionally read
-    the reference bar's index first; dropping the last handle (final draw, then mark_zombie); the
-    ticker thread's loop. Every other call must be one bracket. *)
+    the reference bar's index first; dropping the last handle (final draw, then mark_zombie) - also when a failing
+    WeakProgressBar::upgrade drops the last Arc it had just obtained; the ticker thread's loop
+    (per iteration). Every other call must be one bracket. *)
 Definition allowed_sections (name : string) : nat :=
   if String.eqb name "MultiProgress::add" then 3
   else if String.eqb name "MultiProgress::insert" then 3
@@ -37,8 +38,33 @@ Definition allowed_sections (name : string) : nat :=
   else if String.eqb name "MultiProgress::insert_before" then 4
   else if String.eqb name "ProgressBar::drop" then 3
   else if String.eqb name "BarState::drop:drop" then 3
+  else if String.eqb name "WeakProgressBar::upgrade" then 3
   else if String.eqb name "TickerControl::run" then 4
   else 1.
 
 Definition bracket_ok (e : string * list caction) : bool :=
   Nat.leb (sections (snd e)) (allowed_sections (fst e)).
+
+(** The same over the STRUCTURED programs (gen/LockFootprints.all_programs): the maximum, over all
+    paths, of the number of top-level critical sections.  Abstract state = (nesting depth over
+    {Bar, Multi}, sections so far); [Locks.acheck] needs a loop's entry set to be invariant, so a
+    loop whose body opens a top-level section makes the result [None] ("unbounded"). *)
+Definition sec_step (a : caction) (st : nat * nat) : option (nat * nat) :=
+  let '(d, n) := st in
+  match a with
+  | CAcq c => if state_lock c then Some (S d, match d with O => S n | _ => n end) else Some st
+  | CRel c => if state_lock c then Some (Nat.pred d, n) else Some st
+  | _ => Some st
+  end.
+Definition st_eqb (x y : nat * nat) : bool := Nat.eqb (fst x) (fst y) && Nat.eqb (snd x) (snd y).
+Definition max_sections (p : cprog) : option nat :=
+  match acheck st_eqb sec_step p [(0, 0)%nat] with
+  | Some outs => Some (fold_right (fun st m => Nat.max (snd st) m) 0%nat outs)
+  | None => None
+  end.
+(** a program that is one top-level loop (the ticker thread) is bounded per iteration *)
+Definition bracket_ok_p (e : string * cprog) : bool :=
+  match match snd e with PLoop b => max_sections b | p => max_sections p end with
+  | Some k => Nat.leb k (allowed_sections (fst e))
+  | None => false
+  end.
